@@ -51,6 +51,9 @@ JDLOSSLS = strip_comments(rd("jdlossls.c"))
 JDDIFFCT = strip_comments(rd("jddiffct.c"))
 JDSRC_TJ = strip_comments(rd("jdatasrc-tj.c"))
 JDSRC = strip_comments(rd("jdatasrc.c"))
+JDCOEFCT = strip_comments(rd("jdcoefct.c"))
+JDCOEFCT_H = strip_comments(rd("jdcoefct.h"))
+JDARITH_C = JDARITH
 
 consts = {}
 
@@ -156,6 +159,8 @@ bounds = [
     ("bound_arith_dc_stats", arr(JDARITH, "jdarith.c", r"dc_stats\s*\[([^\]]+)\]", "arith dc_stats")),
     ("bound_arith_ac_stats", arr(JDARITH, "jdarith.c", r"ac_stats\s*\[([^\]]+)\]", "arith ac_stats")),
     ("bound_natural_order", nat_decl),
+    ("bound_MCU_buffer", arr(JDCOEFCT_H, "jdcoefct.h", r"JBLOCKROW\s+MCU_buffer\s*\[([^\]]+)\]", "coef MCU_buffer")),
+    ("bound_consume_buffer", arr(JDCOEFCT, "jdcoefct.c", r"JBLOCKARRAY\s+buffer\s*\[([^\]]+)\]", "consume_data buffer[]")),
     ("bound_newnz_pos", arr(JDPHUFF, "jdphuff.c", r"int\s+newnz_pos\s*\[([^\]]+)\]", "decode_mcu_AC_refine newnz_pos[]")),
     ("bound_lh_arrays", min(arr(JDLHUFF, "jdlhuff.c", r"\*cur_tbls\s*\[([^\]]+)\]", "lhuff cur_tbls"),
                             arr(JDLHUFF, "jdlhuff.c", r"JDIFFROW\s+output_ptr\s*\[([^\]]+)\]", "lhuff output_ptr"),
@@ -229,6 +234,28 @@ GUARDS = [
     (JDLHUFF, "jdlhuff.c", "for (sampn = 0, ptrn = 0; sampn < cinfo->blocks_in_MCU;) { compptr = cinfo->cur_comp_info[cinfo->MCU_membership[sampn]]; ci = compptr->component_index; for (yoffset = 0; yoffset < compptr->MCU_height; yoffset++, ptrn++) {", "lhuff start_pass pointer loop"),
     (JDLHUFF, "jdlhuff.c", "for (xoffset = 0; xoffset < compptr->MCU_width; xoffset++, sampn++) { entropy->output_ptr_index[sampn] = ptrn; entropy->cur_tbls[sampn] = entropy->derived_tbls[compptr->dc_tbl_no]; }", "lhuff start_pass sample loop"),
     (JDLHUFF, "jdlhuff.c", "*entropy->output_ptr[entropy->output_ptr_index[sampn]]++ = (JDIFF)s;", "lhuff decode_mcus store"),
+    (JDCOEFCT, "jdcoefct.c", "(JDIMENSION)jround_up((long)compptr->width_in_blocks, (long)compptr->h_samp_factor), (JDIMENSION)jround_up((long)compptr->height_in_blocks, (long)compptr->v_samp_factor),", "virtual array extents"),
+    (JDCOEFCT, "jdcoefct.c", "cinfo->input_iMCU_row * compptr->v_samp_factor, (JDIMENSION)compptr->v_samp_factor, TRUE);", "consume_data row window"),
+    (JDCOEFCT, "jdcoefct.c", "for (MCU_col_num = coef->MCU_ctr; MCU_col_num < cinfo->MCUs_per_row; MCU_col_num++) {", "consume_data MCU column loop"),
+    (JDCOEFCT, "jdcoefct.c", "start_col = MCU_col_num * compptr->MCU_width; for (yindex = 0; yindex < compptr->MCU_height; yindex++) { buffer_ptr = buffer[ci][yindex + yoffset] + start_col; for (xindex = 0; xindex < compptr->MCU_width; xindex++) { coef->MCU_buffer[blkn++] = buffer_ptr++; } }", "consume_data block pointers"),
+    (JDCOEFCT_H, "jdcoefct.h", "if (cinfo->comps_in_scan > 1) { coef->MCU_rows_per_iMCU_row = 1; } else { if (cinfo->input_iMCU_row < (cinfo->total_iMCU_rows - 1)) coef->MCU_rows_per_iMCU_row = cinfo->cur_comp_info[0]->v_samp_factor; else coef->MCU_rows_per_iMCU_row = cinfo->cur_comp_info[0]->last_row_height; }", "start_iMCU_row"),
+    (JDINPUT, "jdinput.c", "compptr->width_in_blocks = (JDIMENSION) jdiv_round_up((long)cinfo->image_width * (long)compptr->h_samp_factor, (long)(cinfo->max_h_samp_factor * data_unit));", "width_in_blocks"),
+    (JDINPUT, "jdinput.c", "compptr->height_in_blocks = (JDIMENSION) jdiv_round_up((long)cinfo->image_height * (long)compptr->v_samp_factor, (long)(cinfo->max_v_samp_factor * data_unit));", "height_in_blocks"),
+    (JDINPUT, "jdinput.c", "cinfo->total_iMCU_rows = (JDIMENSION) jdiv_round_up((long)cinfo->image_height, (long)(cinfo->max_v_samp_factor * data_unit));", "total_iMCU_rows"),
+    (JDINPUT, "jdinput.c", "cinfo->MCUs_per_row = (JDIMENSION) jdiv_round_up((long)cinfo->image_width, (long)(cinfo->max_h_samp_factor * data_unit));", "MCUs_per_row interleaved"),
+    (JUTILS, "jutils.c", "return (a + b - 1L) / b;", "jdiv_round_up"),
+    (JUTILS, "jutils.c", "a += b - 1L; return a - (a % b);", "jround_up"),
+    (JDARITH, "jdarith.c", "st = entropy->dc_stats[tbl] + entropy->dc_context[ci];", "arith DC S0"),
+    (JDARITH, "jdarith.c", "sign = arith_decode(cinfo, st + 1); st += 2; st += sign; if ((m = arith_decode(cinfo, st)) != 0) { st = entropy->dc_stats[tbl] + 20; while (arith_decode(cinfo, st)) { if ((m <<= 1) == 0x8000) { WARNMS(cinfo, JWRN_ARITH_BAD_CODE); entropy->ct = -1; return TRUE; } st += 1; } }", "arith DC sign/magnitude category"),
+    (JDARITH, "jdarith.c", "entropy->dc_context[ci] = 12 + (sign * 4); else entropy->dc_context[ci] = 4 + (sign * 4); v = m; st += 14; while (m >>= 1) if (arith_decode(cinfo, st)) v |= m;", "arith DC context / magnitude bits"),
+    (JDARITH, "jdarith.c", "for (k = 1; k <= DCTSIZE2 - 1; k++) { st = entropy->ac_stats[tbl] + 3 * (k - 1); if (arith_decode(cinfo, st)) break; while (arith_decode(cinfo, st + 1) == 0) { st += 3; k++; if (k > DCTSIZE2 - 1) { WARNMS(cinfo, JWRN_ARITH_BAD_CODE); entropy->ct = -1; return TRUE; } }", "arith AC EOB/run loop"),
+    (JDARITH, "jdarith.c", "sign = arith_decode(cinfo, entropy->fixed_bin); st += 2; if ((m = arith_decode(cinfo, st)) != 0) { if (arith_decode(cinfo, st)) { m <<= 1; st = entropy->ac_stats[tbl] + (k <= cinfo->arith_ac_K[tbl] ? 189 : 217); while (arith_decode(cinfo, st)) { if ((m <<= 1) == 0x8000) { WARNMS(cinfo, JWRN_ARITH_BAD_CODE); entropy->ct = -1; return TRUE; } st += 1; } } }", "arith AC magnitude category"),
+    (JDARITH, "jdarith.c", "v = m; st += 14; while (m >>= 1) if (arith_decode(cinfo, st)) v |= m; v += 1; if (sign) v = -v; if (block) (*block)[jpeg_natural_order[k]] = (JCOEF)v;", "arith AC magnitude bits / store"),
+    (JDARITH, "jdarith.c", "if (entropy->ct == -1) return TRUE;", "arith error state skips the MCU"),
+    (JDARITH, "jdarith.c", "sv = *st; qe = jpeg_aritab[sv & 0x7F]; nl = qe & 0xFF; qe >>= 8; nm = qe & 0xFF; qe >>= 8;", "arith_decode table fetch"),
+    (JDARITH, "jdarith.c", "while (e->a < 0x8000L) { if (--e->ct < 0) {", "arith_decode renormalisation loop"),
+    (JDARITH, "jdarith.c", "memset(entropy->dc_stats[tbl], 0, DC_STAT_BINS);", "arith DC stats zeroed"),
+    (JDARITH, "jdarith.c", "memset(entropy->ac_stats[tbl], 0, AC_STAT_BINS);", "arith AC stats zeroed"),
     (JDMARKER, "jdmarker.c", "marker->cur_marker = cur_marker; marker->bytes_read = 0;", "save_marker sets bytes_read whenever it sets cur_marker"),
     (JDMARKER, "jdmarker.c", "cinfo->marker->next_restart_num = 0;", "get_sos resets next_restart_num"),
     (JDHUFF_C, "jdhuff.c", "for (k = 1; k < DCTSIZE2; k++) { HUFF_DECODE(s, br_state, actbl, return FALSE, label2); r = s >> 4; s &= 15; if (s) { k += r; CHECK_BIT_BUFFER(br_state, s, return FALSE); r = GET_BITS(s); s = HUFF_EXTEND(r, s);", "decode_mcu_slow AC loop"),
@@ -359,6 +386,23 @@ def coq_strs(l):
     return "[%s]" % "; ".join('"%s"' % x for x in l)
 
 
+# ---------------------------------------------------------------- arithmetic decoder facts
+JARICOM = strip_comments(rd("jaricom.c"))
+mm = re.search(r"const\s+JLONG\s+jpeg_aritab\s*\[([^\]]*)\]\s*=\s*\{(.*?)\};", JARICOM, re.S)
+if not mm:
+    die("jaricom.c: jpeg_aritab[] not found")
+ari_decl = ceval(mm.group(1))
+ari = [(int(i), int(a, 16), int(b), int(c), int(d)) for i, a, b, c, d in
+       re.findall(r"V\(\s*(\d+)\s*,\s*0x([0-9a-fA-F]+)\s*,\s*(\d+)\s*,\s*(\d+)\s*,\s*(\d+)\s*\)", mm.group(2))]
+if len(ari) != ari_decl or [r[0] for r in ari] != list(range(ari_decl)):
+    die("jaricom.c: jpeg_aritab rows do not match the declared size / index column")
+if norm("#define V(i, a, b, c, d) (((JLONG)a << 16) | ((JLONG)c << 8) | ((JLONG)d << 7) | b)") not in norm(rd("jaricom.c")):
+    die("jaricom.c: packing macro V changed")
+consts["DC_STAT_BINS"] = ceval(define(JDARITH, "DC_STAT_BINS", "jdarith.c"))
+consts["AC_STAT_BINS"] = ceval(define(JDARITH, "AC_STAT_BINS", "jdarith.c"))
+bounds.append(("bound_fixed_bin", arr(JDARITH, "jdarith.c", r"unsigned\s+char\s+fixed_bin\s*\[([^\]]+)\]", "arith fixed_bin")))
+bounds.append(("bound_dc_context", arr(JDARITH, "jdarith.c", r"int\s+dc_context\s*\[([^\]]+)\]", "arith dc_context")))
+
 # ---------------------------------------------------------------- output
 out = []
 w = out.append
@@ -398,6 +442,10 @@ w("Definition reset_marker_reader_assigns : list string := %s." % coq_strs(mr_re
 w("Definition reset_marker_reader_cinfo_assigns : list string := %s." % coq_strs(cinfo_reset))
 w("Definition input_controller_state_fields : list string := %s." % coq_strs(ic_state))
 w("Definition reset_input_controller_assigns : list string := %s." % coq_strs(ic_reset))
+w("")
+w("(* jpeg_aritab (jaricom.c): (Qe, Next_Index_LPS, Next_Index_MPS, Switch_MPS) per state *)")
+w("Definition aritab : list (Z * Z * Z * Z) :=\n  [%s]." % "; ".join("(%d, %d, %d, %d)" % (a, b, c, d) for _, a, b, c, d in ari))
+w("Definition L_DC_STAT_BINS : Z := %d.\nDefinition L_AC_STAT_BINS : Z := %d." % (consts["DC_STAT_BINS"], consts["AC_STAT_BINS"]))
 w("")
 w("(* guards of the C text the model mirrors: (file, what, found verbatim modulo whitespace) *)")
 w("Definition guards : list (string * string * bool) :=\n  [%s]." % ";\n   ".join(
